@@ -53,7 +53,7 @@ pub fn run(ctx: &Ctx) -> Result<(), String> {
                     expect: Expect::CleanExit,
                     probe_at_end: false,
                 };
-                let s = explore(ctx, if stats { "client_stats on" } else { "client_stats off" }, &scn, &move |slot: &Slot| env_with_signal(slot, n, k, sig, pos), bound, ctx.tier.pick(1500, 30000), Duration::from_secs(ctx.tier.pick(25, 400)))?;
+                let s = explore(ctx, if stats { "client_stats on" } else { "client_stats off" }, &scn, &move |slot: &Slot| env_with_signal(slot, n, k, sig, pos), bound, ctx.tier.pick(1500, 30000), Duration::from_secs(ctx.tier.pick(25, 90)))?;
                 sched.merge(s);
             }
         }
